@@ -10,7 +10,8 @@
 (***************************************************************************)
 EXTENDS EFSyntax, Json
 
-CONSTANT Tier
+CONSTANT Tier,
+         Seed      \* >= 1: shifts which part of a sampled family is taken (1 = the default sample)
 
 VARIABLE row
 vars == <<row>>
@@ -77,7 +78,7 @@ Next ==
   /\ \E k2 \in 1..NKinds, m2 \in 0..NC :
        /\ (m2 > 0 => UsesC(k2))
        /\ (row.m1 > 0 \/ m2 > 0)                       \* at least one constant condition
-       /\ (Tier = "thorough" \/ (row.k1 + 3 * row.m1 + 5 * k2 + 7 * m2) % 6 = 0)
+       /\ (Tier = "thorough" \/ (row.k1 + 3 * row.m1 + 5 * k2 + 7 * m2 + Seed - 1) % 6 = 0)
        /\ row' = Row(row.shape, row.k1, row.m1, k2, m2)
 
 Spec == Init /\ [][Next]_vars
